@@ -1,5 +1,541 @@
-//! C01 (stub, filled in below)
+//! C01: the interpreter never crashes or needs disproportionate memory on adversarial input; the
+//! other entry points that accept untrusted text/bytes are total. Cases run in isolated worker
+//! processes under a panic hook and a counting allocator.
+use super::honest::*;
+use crate::invoke::*;
+use crate::proj;
+use crate::report::*;
+use crate::rng::Rng;
+use crate::sentry::{run_isolated, CaseResult};
+use crate::sim::*;
+use crate::tamper;
 use serde_json::{json, Value};
-pub fn worker_case(_case: &Value) -> Value {
-    json!({})
+use std::time::Duration;
+
+pub const MEM_BASE: usize = 64 << 20;
+pub const MEM_PER_BYTE: usize = 256;
+pub const MEM_CAP: usize = 2 << 30;
+
+fn input_bytes(i: &RunInput) -> usize {
+    let cr = match &i.call_results {
+        CallResultsIn::Map(m) => m.iter().map(|(k, v)| k.len() + v.1.len() + 8).sum(),
+        CallResultsIn::Raw(b) => b.len(),
+    };
+    i.air.len() + i.prev.len() + i.cur.len() + cr
+}
+
+// ---------------------------------------------------------------- worker side
+
+pub fn worker_case(case: &Value) -> Value {
+    let kind = case.get("kind").and_then(|k| k.as_str()).unwrap_or("");
+    let base = crate::alloc::begin_case();
+    match kind {
+        "exec" => {
+            let input: RunInput = match serde_json::from_value(case["input"].clone()) {
+                Ok(i) => i,
+                Err(e) => return json!({"harness_error": e.to_string()}),
+            };
+            let out = invoke(&input);
+            let (peak, largest) = crate::alloc::end_case(base);
+            let given: Vec<(String, i32, String)> = match &input.call_results {
+                CallResultsIn::Map(m) => m.iter().map(|(k, v)| (k.clone(), v.0, v.1.clone())).collect(),
+                _ => vec![],
+            };
+            let honest_results = case.get("honest_results").and_then(|b| b.as_bool()).unwrap_or(false);
+            let c02 = crate::mon::c02::check_outcome(&input, &out, if honest_results { &given } else { &[] }, &input.particle_id);
+            // one honest follow-up step on whatever came back
+            let mut follow = Value::Null;
+            if case.get("follow").and_then(|b| b.as_bool()).unwrap_or(false) && out.ret_code != PANIC_CODE {
+                let mut i2 = input.clone();
+                i2.prev = out.data.clone();
+                i2.cur = vec![];
+                i2.call_results = CallResultsIn::empty();
+                let b2 = crate::alloc::begin_case();
+                let o2 = invoke(&i2);
+                let (p2, l2) = crate::alloc::end_case(b2);
+                follow = json!({"ret_code": o2.ret_code, "msg": proj::trunc(&o2.error_message, 300), "peak": p2, "largest": l2});
+            }
+            json!({"ret_code": out.ret_code, "msg": proj::trunc(&out.error_message, 300), "peak": peak, "largest": largest,
+                   "input_bytes": input_bytes(&input), "c02": c02.map(|(s, w)| json!([s, w])), "follow": follow,
+                   "accepted": matches!(classify(out.ret_code), CodeClass::Success | CodeClass::Catchable | CodeClass::Farewell)})
+        }
+        "parse" | "beautify" | "beautify_patterns" | "hr" => {
+            let text = case.get("text").and_then(|t| t.as_str()).unwrap_or("").to_string();
+            let bytes: Vec<u8> = case.get("bytes").and_then(|b| b.as_str()).map(|s| {
+                use base64::Engine;
+                base64::engine::general_purpose::STANDARD.decode(s.as_bytes()).unwrap_or_default()
+            }).unwrap_or_default();
+            let r = guarded(|| match kind {
+                "parse" => air_parser::parse(&text).is_ok(),
+                // the rendered text grows with depth x lines by design of the format, so it is streamed
+                // into a counting sink: what is measured is the beautifier's own memory
+                "beautify" => {
+                    let small = text.len() < 20_000 && air_beautifier::beautify_to_string(&text).is_ok();
+                    let mut sink = CountingSink(0);
+                    air_beautifier::beautify(&text, &mut sink, false).is_ok() || small
+                }
+                "beautify_patterns" => {
+                    let mut sink = CountingSink(0);
+                    air_beautifier::beautify(&text, &mut sink, true).is_ok()
+                }
+                _ => air::to_human_readable_data(bytes.clone()).is_ok(),
+            });
+            let (peak, largest) = crate::alloc::end_case(base);
+            match r {
+                Ok(ok) => json!({"ok": ok, "peak": peak, "largest": largest, "input_bytes": text.len() + bytes.len()}),
+                Err((loc, msg)) => json!({"panic": [loc, proj::trunc(&msg, 200)], "peak": peak, "largest": largest, "input_bytes": text.len() + bytes.len()}),
+            }
+        }
+        _ => json!({"harness_error": format!("unknown case kind {kind}")}),
+    }
+}
+
+struct CountingSink(u64);
+impl std::io::Write for CountingSink {
+    fn write(&mut self, buf: &[u8]) -> std::io::Result<usize> {
+        self.0 += buf.len() as u64;
+        Ok(buf.len())
+    }
+    fn flush(&mut self) -> std::io::Result<()> {
+        Ok(())
+    }
+}
+
+// ---------------------------------------------------------------- parent side
+
+fn b64(b: &[u8]) -> String {
+    use base64::Engine;
+    base64::engine::general_purpose::STANDARD.encode(b)
+}
+
+fn class_of(label: &str) -> String {
+    let c: String = label.chars().take_while(|c| c.is_ascii_alphabetic() || *c == '_' || *c == '-' || *c == '.' || *c == ':' || *c == '+').collect();
+    c.trim_end_matches('.').to_string()
+}
+
+fn norm_loc(loc: &str) -> String {
+    let l = loc.strip_prefix("/repo/").unwrap_or(loc);
+    // third-party crates: keep crate dir + file:line
+    if let Some(i) = l.find("/registry/src/") {
+        let rest = &l[i + "/registry/src/".len()..];
+        return rest.splitn(2, '/').nth(1).unwrap_or(rest).to_string();
+    }
+    l.to_string()
+}
+
+struct Planned {
+    case: Value,
+    label: String,
+    group: &'static str,
+}
+
+fn exec_case(input: &RunInput, follow: bool, honest_results: bool) -> Value {
+    json!({"kind": "exec", "input": serde_json::to_value(input).unwrap(), "follow": follow, "honest_results": honest_results})
+}
+
+fn nest(kw: &str, n: usize) -> String {
+    let mut s = String::new();
+    for _ in 0..n {
+        s.push_str(&format!("({kw} (null) "));
+    }
+    s.push_str("(null)");
+    s.push_str(&")".repeat(n));
+    s
+}
+
+fn hostile_scripts(rng: &mut Rng, me: &str, big: bool) -> Vec<(String, String)> {
+    let mut v: Vec<(String, String)> = vec![];
+    let sizes: &[usize] = if big { &[100, 1000, 10_000, 100_000] } else { &[100, 1000, 10_000] };
+    for &n in sizes {
+        for kw in ["seq", "par", "xor"] {
+            v.push((format!("deep-{kw}.{n}"), nest(kw, n)));
+        }
+        let mut s = String::new();
+        for i in 0..n {
+            s.push_str(&format!("(new v{i} "));
+        }
+        s.push_str("(null)");
+        s.push_str(&")".repeat(n));
+        v.push((format!("deep-new.{n}"), s));
+        let mut s = String::new();
+        for _ in 0..n {
+            s.push_str("(match 1 1 ");
+        }
+        s.push_str("(null)");
+        s.push_str(&")".repeat(n));
+        v.push((format!("deep-match.{n}"), s));
+        v.push((format!("long-name.{n}"), format!("(call \"{me}\" (\"s\" \"f\") [] {})", "x".repeat(n))));
+        v.push((format!("many-args.{n}"), format!("(call \"{me}\" (\"s\" \"f\") [{}])", "1 ".repeat(n))));
+        v.push((format!("long-lens.{n}"), format!("(seq (call \"{me}\" (\"s\" \"f\") [] x) (call \"{me}\" (\"s\" \"g\") [x.$.{}]))", "a.".repeat(n.min(5000)).trim_end_matches('.'))));
+    }
+    // name clashes and odd-but-parsable scripts
+    for (l, s) in [
+        ("clash-fold-x-x", "(seq (call \"@\" (\"s\" \"arr1\") [] x) (fold x x (seq (null) (next x))))"),
+        ("clash-iter-scalar", "(seq (call \"@\" (\"s\" \"arr1\") [] x) (fold x i (seq (call \"@\" (\"s\" \"f2\") [] i) (next i))))"),
+        ("clash-out-iter", "(seq (call \"@\" (\"s\" \"arr1\") [] x) (fold x i (seq (ap i i) (next i))))"),
+        ("clash-new-stream-canon", "(new $s (seq (ap 1 $s) (seq (canon \"@\" $s #s) (new #s (call \"@\" (\"s\" \"f2\") [#s])))))"),
+        ("clash-canon-name-scalar", "(seq (ap 1 $s) (seq (canon \"@\" $s #can) (seq (ap 2 can) (call \"@\" (\"s\" \"f2\") [can #can]))))"),
+        ("fold-canon-map-lens", "(seq (ap (\"k\" 1) %m) (seq (canon \"@\" %m #%cm) (fold #%cm.$.k i (seq (call \"@\" (\"s\" \"f2\") [i]) (next i)))))"),
+        ("canon-map-scalar", "(seq (ap (\"k\" 1) %m) (seq (canon \"@\" %m sc) (call \"@\" (\"s\" \"f2\") [sc sc.$.k])))"),
+        ("fail-last-error-empty", "(xor (fail %last_error%) (fail :error:))"),
+        ("fail-number-codes", "(xor (fail 9223372036854775807 \"m\") (fail -9223372036854775808 \"m\"))"),
+        ("i64-overflow-literal", "(call \"@\" (\"s\" \"f2\") [99999999999999999999999 1e999 -0.0])"),
+        ("next-outside", "(seq (null) (next i))"),
+        ("lens-on-literal-peer", "(call \"@\".$.x (\"s\" \"f2\") [])"),
+        ("ttl-timestamp-match", "(match %ttl% %timestamp% (null))"),
+        ("unicode-lens", "(seq (call \"@\" (\"s\" \"f1\") [] a) (call \"@\" (\"s\" \"f2\") [a.$.\u{e9}.[0]] x))"),
+        ("unicode-name", "(call \"@\" (\"s\" \"f1\") [] \u{e9}x)"),
+        ("stream-map-int-keys", "(seq (ap (-1 1) %m) (seq (ap (9223372036854775807 2) %m) (canon \"@\" %m #%c)))"),
+    ] {
+        v.push((l.to_string(), s.replace('@', me)));
+    }
+    // token soup
+    let toks = ["(", ")", "[", "]", "seq", "par", "xor", "call", "fold", "next", "new", "ap", "canon", "fail", "match", "mismatch", "null", "never", "\"a\"", "x", "$s", "%m", "#c", "#%c", "x.$.a", "x.$.[0]", ".length", "%init_peer_id%", "%last_error%", ":error:", "%ttl%", "1", "-1", "1.5", "true", "\u{e9}", "\"", "\\", "\n", "\u{0}", "#", "%", "$", ".$", "!"];
+    for k in 0..40 {
+        let n = rng.range(1, 40);
+        let s: String = (0..n).map(|_| format!("{} ", rng.pick(&toks))).collect();
+        v.push((format!("token-soup.{k}"), s));
+    }
+    v
+}
+
+fn mutate_text(rng: &mut Rng, s: &str) -> String {
+    let mut chars: Vec<char> = s.chars().collect();
+    for _ in 0..rng.range(1, 4) {
+        if chars.is_empty() {
+            break;
+        }
+        let i = rng.below(chars.len());
+        match rng.below(8) {
+            0 => {
+                chars.remove(i);
+            }
+            1 => chars.insert(i, *rng.pick(&['(', ')', '[', ']', '"', '.', '$', '#', '%', '!', '\u{e9}', '\u{1F600}', '\u{0}', '\n', '-', '9'])),
+            2 => chars[i] = *rng.pick(&['(', ')', '[', ']', '"', '.', '$', '#', '%', '\u{e9}', ' ', '0']),
+            3 => {
+                let j = rng.below(chars.len());
+                chars.swap(i, j);
+            }
+            4 => {
+                let n = rng.below(chars.len() - i) + 1;
+                let chunk: Vec<char> = chars[i..(i + n).min(chars.len())].to_vec();
+                let at = rng.below(chars.len());
+                for (k, c) in chunk.into_iter().enumerate() {
+                    chars.insert((at + k).min(chars.len()), c);
+                }
+            }
+            5 => {
+                chars.truncate(i);
+            }
+            6 => {
+                for c in "99999999999999999999".chars() {
+                    chars.insert(i, c);
+                }
+            }
+            _ => {
+                for c in ".$.\u{e9}".chars().rev() {
+                    chars.insert(i, c);
+                }
+            }
+        }
+    }
+    chars.into_iter().collect()
+}
+
+fn plan_from_history(c: &Case, rng: &mut Rng, out: &mut Vec<Planned>, per_step: usize) {
+    let w = &c.world;
+    for s in &c.history.steps {
+        let Some(cv) = &s.cur_v else { continue };
+        if s.input.cur.is_empty() || proj::trace(cv).is_empty() {
+            continue;
+        }
+        let attacker = match s.from {
+            Some(a) => &w.peers[a],
+            None => continue,
+        };
+        let view = match proj::decode(&s.input.cur) {
+            Ok(v) => v,
+            Err(_) => continue,
+        };
+        for _ in 0..per_step {
+            // structure-aware signed tampering
+            let mut data = view.data.clone();
+            let mut labels = vec![];
+            for _ in 0..rng.range(1, 3) {
+                if let Some(l) = tamper::mutate_structure(rng, &mut data, &attacker.id) {
+                    labels.push(l);
+                }
+            }
+            if labels.is_empty() {
+                continue;
+            }
+            let repaired = rng.chance(4, 5);
+            if repaired {
+                tamper::repair(&mut data);
+                tamper::resign(&mut data, attacker, &w.particle_id);
+            }
+            let enc = proj::encode_with_versions(&data, &view.data_version, &view.interpreter_version);
+            let label = format!("tamper{}:{}", if repaired { "+resign" } else { "" }, labels.join("+"));
+            match enc {
+                Ok(bytes) => {
+                    let mut input = s.input.clone();
+                    input.cur = bytes;
+                    out.push(Planned { case: exec_case(&input, true, true), label, group: "signed-tamper" });
+                }
+                Err(_) => {
+                    // not representable in the typed format (e.g. wrong field type): skipped, counted by the caller
+                    out.push(Planned { case: Value::Null, label, group: "unencodable" });
+                }
+            }
+        }
+        // byte-level
+        if rng.chance(1, 2) {
+            let mut input = s.input.clone();
+            let which = rng.below(4);
+            let label;
+            match which {
+                0 => {
+                    input.cur = tamper::mutate_bytes(rng, &s.input.cur);
+                    label = "bytes:envelope";
+                }
+                1 => {
+                    // mutate the inner (rkyv) bytes, keep the envelope intact
+                    let inner = proj::inner_bytes(&s.input.cur).unwrap_or_default();
+                    let m = tamper::mutate_bytes(rng, &inner);
+                    input.cur = proj::wrap_inner(&m, &view.data_version, &view.interpreter_version).unwrap_or_default();
+                    label = "bytes:inner";
+                }
+                2 => {
+                    let raw = match &s.input.call_results {
+                        CallResultsIn::Map(m) => encode_call_results(m),
+                        CallResultsIn::Raw(b) => b.clone(),
+                    };
+                    input.call_results = CallResultsIn::Raw(tamper::mutate_bytes(rng, &raw));
+                    label = "bytes:call-results";
+                }
+                _ => {
+                    let n = rng.below(200);
+                    input.cur = rng.bytes(n);
+                    label = "bytes:random";
+                }
+            }
+            out.push(Planned { case: exec_case(&input, true, false), label: label.into(), group: "byte-level" });
+        }
+        // hostile call-result maps on honest data
+        if rng.chance(1, 3) {
+            let mut input = s.input.clone();
+            let mut m = std::collections::BTreeMap::new();
+            let ids: Vec<String> = vec!["0".into(), "1".into(), "2".into(), "4294967295".into(), "4294967296".into(), "-1".into(), "x".into(), "".into(), "01".into(), " 1".into()];
+            for _ in 0..rng.range(1, 4) {
+                let res = match rng.below(5) {
+                    0 => "not json".to_string(),
+                    1 => "{\"a\":".to_string(),
+                    2 => "1e999".to_string(),
+                    3 => format!("\"{}\"", "z".repeat(rng.below(5000))),
+                    _ => "[1,2,3]".to_string(),
+                };
+                m.insert(rng.pick(&ids).clone(), (*rng.pick(&[0, 1, -1, i32::MAX, i32::MIN]), res));
+            }
+            input.call_results = CallResultsIn::Map(m);
+            out.push(Planned { case: exec_case(&input, true, false), label: "call-results:odd-map".into(), group: "hostile-call-results" });
+        }
+        // the other entry points on honest and mutated bytes/text
+        if rng.chance(1, 4) {
+            out.push(Planned { case: json!({"kind": "hr", "bytes": b64(&s.input.cur)}), label: "hr:honest".into(), group: "other-entry-points" });
+            out.push(Planned { case: json!({"kind": "hr", "bytes": b64(&tamper::mutate_bytes(rng, &s.input.cur))}), label: "hr:mutated".into(), group: "other-entry-points" });
+        }
+    }
+    // mutated versions of the honest script through every text entry point
+    for _ in 0..3 {
+        let t = mutate_text(rng, &w.air);
+        let mut input = c.history.steps[0].input.clone();
+        input.air = t.clone();
+        out.push(Planned { case: exec_case(&input, false, false), label: "script:mutated".into(), group: "hostile-scripts" });
+        for k in ["parse", "beautify", "beautify_patterns"] {
+            out.push(Planned { case: json!({"kind": k, "text": t}), label: format!("{k}:mutated"), group: "other-entry-points" });
+        }
+    }
+}
+
+pub fn run(cfg: &Cfg) -> Report {
+    let mut stats = Stats::default();
+    let exe = std::env::current_exe().expect("current exe");
+    let verif_dir = std::env::var("VERIF_DIR").unwrap_or_else(|_| "/verif".to_string());
+    let scratch = format!("{verif_dir}/.cache/sentry");
+    // 1. honest histories -> planned cases
+    let n_hist = cfg.scale(250, 4000);
+    let per_step = if cfg.thorough { 3 } else { 2 };
+    let planned: std::sync::Mutex<Vec<(u64, Planned)>> = std::sync::Mutex::new(vec![]);
+    let hstats = par_cases(cfg, n_hist, |case, st| {
+        if let Some(c) = build_case(cfg, 1, case, &[Frag::Stream, Frag::Stream, Frag::Seq]) {
+            observe(&c, st);
+            let mut rng = Rng::derive(cfg.seed ^ 0xc01, 1, case);
+            let mut out = vec![];
+            plan_from_history(&c, &mut rng, &mut out, per_step);
+            planned.lock().unwrap().extend(out.into_iter().map(|p| (case, p)));
+        }
+    });
+    stats.merge(hstats);
+    let mut planned = planned.into_inner().unwrap();
+    planned.sort_by_key(|(c, _)| *c);
+    // 2. hostile scripts (own classes: a stack overflow kills the worker)
+    let peers = standard_peers(1);
+    let me = &peers[0];
+    let mut rng = Rng::derive(cfg.seed, 0xc01, 0);
+    for (label, text) in hostile_scripts(&mut rng, &me.id, cfg.thorough) {
+        let w = World::new(1, text.clone(), None, "hostile", 3);
+        let input = w.input(me);
+        planned.push((u64::MAX, Planned { case: exec_case(&input, false, false), label: format!("script:{label}"), group: "hostile-scripts" }));
+        for k in ["parse", "beautify", "beautify_patterns"] {
+            planned.push((u64::MAX, Planned { case: json!({"kind": k, "text": text}), label: format!("{k}:{label}"), group: "other-entry-points" }));
+        }
+    }
+    // long scalar folds and runtime type confusion via service results
+    let sizes: &[usize] = if cfg.thorough { &[100, 1000, 10_000, 100_000] } else { &[100, 1000, 10_000] };
+    for &n in sizes {
+        for (shape, script) in [
+            ("fold-seq", format!("(seq (call \"{0}\" (\"s\" \"big\") [] xs) (fold xs i (seq (null) (next i))))", me.id)),
+            ("fold-par", format!("(seq (call \"{0}\" (\"s\" \"big\") [] xs) (fold xs i (par (null) (next i))))", me.id)),
+            ("fold-canon", format!("(seq (call \"{0}\" (\"s\" \"big\") [] xs) (seq (fold xs i (seq (ap i $s) (next i))) (seq (canon \"{0}\" $s #c) (fold #c j (seq (null) (next j))))))", me.id)),
+        ] {
+            let w = World::new(1, script, None, "longfold", 3);
+            let first = invoke(&w.input(me));
+            let mut input = w.input(me);
+            input.prev = first.data.clone();
+            let arr: Vec<Value> = (0..n).map(|i| json!(i)).collect();
+            let mut m = std::collections::BTreeMap::new();
+            m.insert("1".to_string(), (0, Value::Array(arr).to_string()));
+            input.call_results = CallResultsIn::Map(m);
+            planned.push((u64::MAX, Planned { case: exec_case(&input, false, true), label: format!("script:long-{shape}.{n}"), group: "hostile-scripts" }));
+        }
+    }
+    for (label, result) in [("non-array-fold", "{\"a\":1}"), ("string-fold", "\"str\""), ("null-fold", "null"), ("nested-deep", &format!("{}1{}", "[".repeat(120), "]".repeat(120))), ("huge-number", "1e308"), ("long-string", &format!("\"{}\"", "s".repeat(200_000)))] {
+        let script = format!("(seq (call \"{0}\" (\"s\" \"big\") [] xs) (xor (fold xs i (seq (call xs (\"s\" i) [xs.$.[0] xs.$.a] $st) (next i))) (call \"{0}\" (xs \"f\") [xs.length])))", me.id);
+        let w = World::new(1, script, None, "confusion", 3);
+        let first = invoke(&w.input(me));
+        let mut input = w.input(me);
+        input.prev = first.data.clone();
+        let mut m = std::collections::BTreeMap::new();
+        m.insert("1".to_string(), (0, result.to_string()));
+        input.call_results = CallResultsIn::Map(m);
+        planned.push((u64::MAX, Planned { case: exec_case(&input, true, true), label: format!("script:type-confusion-{label}"), group: "hostile-scripts" }));
+    }
+
+    let unencodable = planned.iter().filter(|(_, p)| p.group == "unencodable").count();
+    stats.inc("tamperings_not_representable_in_the_typed_format", unencodable as u64);
+    planned.retain(|(_, p)| p.group != "unencodable");
+    if let Some(k) = cfg.only_case {
+        planned.retain(|(c, _)| *c == k || *c == u64::MAX);
+    }
+    let cases: Vec<Value> = planned.iter().map(|(_, p)| p.case.clone()).collect();
+    let results = run_isolated(&exe, &cases, cfg.threads, &scratch, MEM_CAP, Duration::from_secs(60));
+    let _ = std::fs::remove_dir_all(&scratch);
+
+    for ((hcase, p), r) in planned.iter().zip(results.iter()) {
+        stats.inc("cases", 1);
+        stats.inc(&format!("cases[{}]", p.group), 1);
+        let class = class_of(&p.label);
+        stats.label("case_classes", &class);
+        let case_id = if *hcase == u64::MAX { 0 } else { *hcase };
+        let detail = || json!({"label": p.label, "case": trim_case(&p.case)});
+        match r {
+            CaseResult::Done(v) => {
+                if let Some(e) = v.get("harness_error") {
+                    stats.inconclusive.push(format!("worker harness error on {}: {e}", p.label));
+                    continue;
+                }
+                let mem_violation = |peak: u64, largest: u64, bytes: u64, what: &str| -> Option<(String, String)> {
+                    let bound = (MEM_BASE + MEM_PER_BYTE * bytes as usize) as u64;
+                    if peak > bound || largest > bound {
+                        Some((format!("alloc-out-of-proportion@class={class}"), format!("{what}: peak {peak} bytes / largest request {largest} bytes for {bytes} input bytes (bound {bound}) on {}", p.label)))
+                    } else {
+                        None
+                    }
+                };
+                let peak = v.get("peak").and_then(|x| x.as_u64()).unwrap_or(0);
+                let largest = v.get("largest").and_then(|x| x.as_u64()).unwrap_or(0);
+                let bytes = v.get("input_bytes").and_then(|x| x.as_u64()).unwrap_or(0);
+                if let Some((sg, wh)) = mem_violation(peak, largest, bytes, "run") {
+                    stats.violation("C01", &sg, &wh, case_id, detail());
+                }
+                stats.counters.entry("max_peak_bytes".into()).and_modify(|m| *m = (*m).max(peak)).or_insert(peak);
+                if let Some(pn) = v.get("panic").and_then(|p| p.as_array()) {
+                    let loc = norm_loc(pn[0].as_str().unwrap_or("?"));
+                    stats.violation("C01", &format!("panic@{loc}"), &format!("{} panicked at {loc}: {}", p.label, pn[1].as_str().unwrap_or("")), case_id, detail());
+                    continue;
+                }
+                if let Some(code) = v.get("ret_code").and_then(|c| c.as_i64()) {
+                    stats.label("ret_codes_seen", &crate::errcodes::table().name(code));
+                    if code == PANIC_CODE {
+                        let msg = v.get("msg").and_then(|m| m.as_str()).unwrap_or("");
+                        let loc = norm_loc(msg.trim_start_matches("PANIC at ").split(" :: ").next().unwrap_or("?"));
+                        stats.violation("C01", &format!("panic@{loc}"), &format!("{}: {msg}", p.label), case_id, detail());
+                        continue;
+                    }
+                    if v.get("accepted").and_then(|a| a.as_bool()).unwrap_or(false) && p.group == "signed-tamper" {
+                        stats.inc("tampered_data_accepted_and_executed", 1);
+                        stats.seen("accepted_tamper_classes", crate::rng::fnv(class_of(p.label.split(':').nth(1).unwrap_or("")).as_bytes()));
+                    }
+                    if p.group == "signed-tamper" {
+                        stats.seen("tamper_outcomes", crate::rng::fnv(format!("{}|{code}", p.label.split('=').next().unwrap_or("")).as_bytes()));
+                    }
+                    if let Some(c02) = v.get("c02").and_then(|c| c.as_array()) {
+                        stats.inc("c02_rule_defects_seen_on_hostile_input", 1);
+                        stats.label("c02_defect_signatures", c02[0].as_str().unwrap_or(""));
+                    }
+                    if let Some(f) = v.get("follow") {
+                        if f.get("ret_code").and_then(|c| c.as_i64()) == Some(PANIC_CODE) {
+                            let msg = f.get("msg").and_then(|m| m.as_str()).unwrap_or("");
+                            let loc = norm_loc(msg.trim_start_matches("PANIC at ").split(" :: ").next().unwrap_or("?"));
+                            stats.violation("C01", &format!("panic@{loc}"), &format!("{} (honest follow-up step): {msg}", p.label), case_id, detail());
+                        }
+                        if let (Some(pk), Some(lg)) = (f.get("peak").and_then(|x| x.as_u64()), f.get("largest").and_then(|x| x.as_u64())) {
+                            if let Some((sg, wh)) = mem_violation(pk, lg, bytes, "follow-up run") {
+                                stats.violation("C01", &sg, &wh, case_id, detail());
+                            }
+                        }
+                    }
+                }
+                stats.seen("distinct_cases", crate::rng::fnv(serde_json::to_string(&p.case).unwrap_or_default().as_bytes()));
+            }
+            CaseResult::Died { signal, code, stderr_tail } => {
+                let sig = if stderr_tail.contains("VCHECK-ALLOC-CAP-EXCEEDED") {
+                    format!("alloc-cap@class={class}")
+                } else if stderr_tail.contains("overflowed its stack") || stderr_tail.contains("stack overflow") {
+                    format!("stack-overflow@class={class}")
+                } else {
+                    format!("died@signal={:?},class={class}", signal)
+                };
+                stats.seen("distinct_cases", crate::rng::fnv(serde_json::to_string(&p.case).unwrap_or_default().as_bytes()));
+                stats.violation("C01", &sig, &format!("worker process died on {} (signal {:?}, exit code {:?}): {}", p.label, signal, code, proj::trunc(stderr_tail.trim(), 300)), case_id, detail());
+            }
+            CaseResult::Timeout => stats.inconclusive.push(format!("wall-clock watchdog (60 s) fired on {}", p.label)),
+            CaseResult::Harness(e) => stats.inconclusive.push(format!("harness: {e} on {}", p.label)),
+        }
+    }
+    for (_, p) in planned.iter().take(400).filter(|(_, p)| p.group == "signed-tamper").take(3) {
+        stats.sample(json!({"label": p.label, "case": trim_case(&p.case)}));
+    }
+    Report {
+        prop: "C01",
+        level: "exploration",
+        stats,
+        evaluations_key: "cases",
+        nontrivial_key: "distinct_cases",
+        rule: "cases run in isolated worker processes (8 MiB stack, panic hook, counting allocator capped at 2 GiB): structure-aware tampering of honest current data (1-3 catalogue operations, CID stores repaired and the attacker's results re-signed in 4 of 5 cases) delivered to an honest peer holding honest previous data and followed by one honest step; byte-level mutations of envelopes, inner data and call-result maps; hostile call-result maps; hostile scripts (deep nesting 10^2..10^5, long folds, name clashes, type confusion, token soup, mutated honest scripts); parse / beautify / to_human_readable_data on the same texts and bytes. Violation = panic, process death, allocator cap, or peak/largest allocation above 64 MiB + 256 x input bytes. Distinct by full case content".into(),
+        assumptions: vec![
+            "previous data is always an honest interpreter output (as the property states)".into(),
+            "memory bound: 64 MiB + 256 bytes per input byte; time: 60 s wall-clock watchdog per case is inconclusive, not a violation".into(),
+        ],
+    }
+}
+
+fn trim_case(c: &Value) -> Value {
+    // replay needs everything; keep the case but cap enormous texts
+    let s = serde_json::to_string(c).unwrap_or_default();
+    if s.len() <= 60_000 {
+        c.clone()
+    } else {
+        json!({"kind": c.get("kind"), "note": "case too large to embed; regenerate with --only-case", "prefix": proj::trunc(&s, 2000)})
+    }
 }
